@@ -134,6 +134,29 @@ CHECKS = {
              'rename is atomic. Content of finalized files: C01/C06.',
         technique='symbolic execution of LLVM IR to SMT (z3) over event-trace prefixes + z3 regex emptiness + strace validation of the stubs',
         design_ref='DESIGN.md section 4 C02'),
+    'C12': dict(
+        level='model_checking',
+        text='CrossHair (per-path z3 queries) on the real metadata reader and writer over an in-memory HDF5 store: Confirmed over all paths that '
+             'bounds are the smallest/largest index written (group names ordered as strings, as h5py lists them), range reads return exactly '
+             'the in-range samples ascending with their own values, forward fill adds exactly the latest sample at or before the start, '
+             'read_latest returns the highest index, column selection forms, that a write creates one group per index in the file of that '
+             'index, refuses an existing index with IOError leaving the stored sample unchanged, closes every file it opened, and that the '
+             'dict form distributes only length-N non-string values. Bounds: <=3 samples, <=3 files, indices < 1000 in the harness channel.',
+        note='Trusted: CrossHair/z3, the in-memory HDF5 store and numpy shim, insertion-ordered mapping for OrderedDict; file placement is C13.',
+        technique='CrossHair symbolic execution of the real Python functions (z3), counterexamples replayed on the real build',
+        design_ref='DESIGN.md section 4 C12'),
+    'C13': dict(
+        level='proof',
+        text='The numeric expressions of the real writer (file-index key, file and subdirectory timestamps) and reader (candidate window, '
+             'subdirectory/file loops, mask, name format) are read from the AST on every run and translated to SMT; numpy.longdouble steps, '
+             'when present, are modelled exactly (IEEE round-to-nearest-even encoded in LIA per binade). z3 shows for every index with time '
+             'in 1980..2100, per (rate, cadence) configuration, that the writer stores sample k in <prefix>@mfile(k).h5 under the subdirectory '
+             'of mfile(k), that the reader\'s loops yield that file for every range containing k, and that a single-sample query looks in exactly '
+             'that file.',
+        note='Trusted: z3, the AST translator (unsupported syntax => inconclusive), numpy.longdouble = x87 80-bit. Counterexamples are replayed '
+             'with the real DigitalMetadataWriter/Reader.',
+        technique='Python AST to SMT (z3 LIA, exact IEEE-754 rounding model), per-configuration queries',
+        design_ref='DESIGN.md section 4 C13'),
 }
 
 NOT_YET = 'check not built yet in this revision of /verif (planned, see DESIGN.md section 4)'
